@@ -379,7 +379,10 @@ def rt_check(
     """
     if rt_factor:
         rt_passed = perf_counter() - rt_start
-        delta = rt_passed - (rt_factor * sim.last_step.time)
+        # The step for time t is scheduled for the real-time interval
+        # from rt_factor * t to rt_factor * (t + 1). The simulation is
+        # only too slow if the step is not done by the end of it.
+        delta = rt_passed - (rt_factor * (sim.last_step.time + 1))
         if delta > 0:
             if rt_strict:
                 raise RuntimeError(
